@@ -498,11 +498,11 @@ def rg_identifiers(ctx):
         try:
             g1, g2 = str(mk(a1, b1).fields["guid"]), str(mk(a2, b2).fields["guid"])
         except Raised as ex:
-            r.violation("C08.RG", q, "coordinates separated in the digest", f"{cname}: construction raises {ex.exc_name}", repo.fn(q))
+            r.violation("C08.RG", q, "coordinates separated in the digest", f"{cname}: construction raises {ex.exc_name}", repo.where(q))
             continue
         r.check(g1 != g2, "C08.RG", q, "coordinates separated in the digest",
                 f"{cname}({a1}, {b1}, ...) and {cname}({a2}, {b2}, ...) have the same guid {g1}: start and end are digested as adjacent "
-                f"strings without a separator, so digits migrate between them", repo.fn(q))
+                f"strings without a separator, so digits migrate between them", repo.where(q))
 
 
 def rg_derived_identifiers(ctx):
